@@ -281,6 +281,9 @@ def run(p, report, tier):
                 "which other candidates are offered", floor=1)
     report.rule("R8.2", "after _transform_candidates the raw `candidates` parameter is read only to choose between "
                 "equivalent index sets (None / ndim tests, length), never as an operand of a numerical computation", floor=25)
+    report.rule("R8.6", "an argument that describes the GIVEN samples to a helper (parameter `sample_indices`: the rows of "
+                "X the distances are measured to) does not depend on the candidate representation (candidates, X_cand, "
+                "mapping or anything computed from them, e.g. X with the candidate rows appended)", floor=2)
     funcs = c01.pool_functions(p)
     n_pairs = 0
     for f in funcs:
@@ -414,6 +417,8 @@ def run(p, report, tier):
                        detail="each score depends on its own candidate only" if not bad else
                        "the set of candidates is read at line(s) " + ", ".join(str(b.lineno) for b in bad) +
                        " while scoring a single candidate: restricting the candidates changes the scores of the remaining ones")
+    n86 = check_reference_set_roles(p, report, funcs)
+    report.analysed["reference_set_arguments"] = n86
     report.analysed["per_candidate_loops"] = n85
     report.analysed["shrinking_pool_selections"] = n83
     report.assumptions += ["restriction invariance and permutation equivariance of the numbers are not decided",
@@ -596,3 +601,65 @@ def _parent(root, node):
             if ch is node:
                 return n
     return None
+
+
+REFERENCE_ROLE_PARAMS = {"sample_indices"}
+
+
+def check_reference_set_roles(p, report, funcs):
+    n = 0
+    for f in funcs:
+        calls = []
+        for c in ast.walk(f.node):
+            if isinstance(c, ast.Call) and isinstance(c.func, (ast.Name, ast.Attribute)):
+                r = p.resolve_expr(f.module, c.func)
+                if r is not None and r[0] == "func" and (set(r[1].params()) & REFERENCE_ROLE_PARAMS):
+                    calls.append((c, r[1]))
+        if not calls:
+            continue
+        # candidate-derived names: results of _transform_candidates and the
+        # validated `candidates`, closed forward over the dependence edges
+        # (the positional tuple returned by _validate_data is matched by position)
+        cand = {"candidates"}
+        stmts = [st for st in ast.walk(f.node) if isinstance(st, ast.stmt)]
+        edges = {}
+        for st in stmts:
+            if isinstance(st, ast.Assign) and isinstance(st.value, ast.Call):
+                cn = c01.callname(st.value)
+                t0 = st.targets[0]
+                if cn == "_transform_candidates" and isinstance(t0, (ast.Tuple, ast.List)):
+                    for e in t0.elts:
+                        if isinstance(e, ast.Name):
+                            cand.add(e.id)
+                    continue
+                if cn == "_validate_data" and isinstance(t0, (ast.Tuple, ast.List)):
+                    for e, a in zip(t0.elts, st.value.args):
+                        if isinstance(e, ast.Name):
+                            edges.setdefault(e.id, set()).update(names_in(a))
+                    continue
+            if isinstance(st, (ast.Assign, ast.AugAssign, ast.AnnAssign)):
+                for k, v in dep_edges([st]).items():
+                    edges.setdefault(k, set()).update(v)
+        locs = (local_names(f.node) | set(f.all_param_names())) - set(f.module.imports if hasattr(f.module, "imports") else ())
+        locs -= {"np", "numpy", "self"}
+        edges = {k: {x for x in v if x in locs} for k, v in edges.items() if k in locs}
+        fwd = forward_closure(cand, edges) | cand
+        for c, g in calls:
+            params = g.params()
+            bind = {}
+            for i, a in enumerate(c.args):
+                if i < len(params):
+                    bind[params[i]] = a
+            for k in c.keywords:
+                if k.arg:
+                    bind[k.arg] = k.value
+            for pn in sorted(set(bind) & REFERENCE_ROLE_PARAMS):
+                dep = names_in(bind[pn]) & fwd
+                n += 1
+                report.add("R8.6", f.qual, f"`{pn}` of {site_id(c, 50)} independent of the candidate representation",
+                           f"{f.file}:{c.lineno}", not dep,
+                           detail="depends on the given samples only" if not dep else
+                           f"depends on {sorted(dep)}, which is computed from the candidates: with candidates given as "
+                           "feature rows the reference set differs from the one used for the same samples given as "
+                           "indices")
+    return n
